@@ -25,6 +25,7 @@ import (
 	"go/types"
 	"os"
 	"path/filepath"
+	"regexp"
 	"sort"
 	"strconv"
 	"strings"
@@ -170,6 +171,7 @@ type weaver struct {
 	nTmp    int
 
 	needSelectN bool
+	needCond    bool
 	captured    map[*types.Var]bool
 }
 
@@ -220,10 +222,6 @@ func (w *weaver) file(f *ast.File, name string) {
 		switch obj.Pkg().Path() {
 		case "sync":
 			switch obj.Name() {
-			case "Cond", "NewCond":
-				fatal("%s: sync.Cond is not modelled by the simulator; refusing to weave (%s)", w.site(idn), name)
-			case "Map", "Pool":
-				w.noteHB(fmt.Sprintf("%s uses sync.%s", w.site(idn), obj.Name()))
 			}
 		case "context", "golang.org/x/sync/errgroup":
 			fatal("%s: package %s is not modelled by the simulator; refusing to weave", w.site(idn), obj.Pkg().Path())
@@ -846,6 +844,35 @@ func (w *weaver) call(c *ast.CallExpr) ast.Expr {
 		}
 		w.count(strings.ToLower(rtyp + "." + name))
 		return w.wrap(kind, x, site, c, origType)
+	case rpkg == "sync" && rtyp == "Cond":
+		// simulated, not executed: see vhCondWait in the generated file
+		x := recvExpr()
+		if x == nil {
+			fatal("%s: cannot take the identity of the receiver of sync.Cond.%s", site, name)
+		}
+		w.needCond = true
+		w.imports["sync"] = "sync"
+		w.count("cond." + strings.ToLower(name))
+		switch name {
+		case "Wait":
+			return call("vhCondWait", x, lit(site))
+		case "Signal":
+			return call("vhCondSignal", x, id("false"), lit(site))
+		case "Broadcast":
+			return call("vhCondSignal", x, id("true"), lit(site))
+		}
+		fatal("%s: sync.Cond.%s is not modelled by the simulator; refusing to weave", site, name)
+		return nil
+	case rpkg == "sync" && (rtyp == "Pool" || rtyp == "Map"):
+		// linearizable objects: every method is an acquire and a release on
+		// the object (more order than the runtime promises, so no false race
+		// through an object handed over by Put/Get or Store/Load)
+		x := recvExpr()
+		if x == nil {
+			fatal("%s: cannot take the identity of the receiver of sync.%s.%s", site, rtyp, name)
+		}
+		w.count(strings.ToLower(rtyp + "." + name))
+		return w.wrap(kAtomic, x, site, c, origType)
 	case pkgPath == "sync/atomic":
 		var x ast.Expr
 		if rtyp != "" {
@@ -951,8 +978,11 @@ func (w *weaver) typeString(t types.Type, site string) string {
 	if bad {
 		fatal("%s: type %s cannot be named in a generated trampoline", site, t)
 	}
-	return types.TypeString(t, w.qual)
+	// the predeclared alias "any" needs go1.18; the woven module may declare less
+	return anyRE.ReplaceAllString(types.TypeString(t, w.qual), "${1}interface{}")
 }
+
+var anyRE = regexp.MustCompile(`(^|[^\w.])any\b`)
 
 func (w *weaver) resultFields(tup *types.Tuple, site string) (*ast.FieldList, []string) {
 	if tup == nil || tup.Len() == 0 {
@@ -1770,6 +1800,7 @@ type VerifRuntime interface {
 	Start(tok int)
 	Exit(tok int, r interface{})
 	Unsupported(what string, site string)
+	CondAdd(obj interface{}, site string) int
 	Yield(site string) bool
 	SelectPre(site string, n int) (int, int)
 	SelectBlock(g int, site string, chans []interface{})
@@ -1908,6 +1939,66 @@ func vhSelectN(site string, chans []interface{}, sends []bool, hasDefault bool, 
 	i := block()
 	VerifRT.SelectPost(g, site, chans[i], sends[i], 1)
 	return i
+}
+
+`)
+	}
+	if w.needCond {
+		b.WriteString(`// sync.Cond is simulated: a waiter registers, unlocks, parks until a
+// Signal/Broadcast picks it (in registration order, like the runtime) and
+// locks again; the real Cond has no waiters and is never called.
+func vhCondWait(c *sync.Cond, site string) {
+	g := -1
+	if VerifRT != nil {
+		g = VerifRT.CondAdd(c, site)
+	}
+	if g < 0 {
+		c.Wait()
+		return
+	}
+	vhLocker(c.L, false, site)
+	VerifRT.Post(VerifRT.Pre(22, c, site), 22, c, site, 0)
+	vhLocker(c.L, true, site)
+}
+
+func vhCondSignal(c *sync.Cond, all bool, site string) {
+	kind := 23
+	if all {
+		kind = 24
+	}
+	g := vhPre(kind, c, site)
+	if g < 0 {
+		if all {
+			c.Broadcast()
+		} else {
+			c.Signal()
+		}
+		return
+	}
+	vhPost(g, kind, c, site, 0)
+}
+
+func vhLocker(l sync.Locker, lock bool, site string) {
+	var obj interface{}
+	switch m := l.(type) {
+	case *sync.Mutex:
+		obj = m
+	case *sync.RWMutex:
+		obj = m
+	default:
+		vhUnsupported("sync.Cond over a Locker that is neither *sync.Mutex nor *sync.RWMutex", site)
+	}
+	kind := 7
+	if lock {
+		kind = 6
+	}
+	g := vhPre(kind, obj, site)
+	if lock {
+		l.Lock()
+	} else {
+		l.Unlock()
+	}
+	vhPost(g, kind, obj, site, 0)
 }
 
 `)
